@@ -53,6 +53,7 @@ type Explorer struct {
 	StepCap           int64
 	MaxPaths          int
 	MaxFailures       int
+	unmodelledEnds    int
 	PanicsAreFailures bool
 	QueryLog          io.Writer
 
@@ -170,6 +171,11 @@ func (x *Explorer) Run() {
 
 				x.mu.Lock()
 				x.active--
+				if x.unmodelledEnds >= 300 && !x.Stopped {
+					// the same unmodelled construct keeps ending the paths: exploring more of them decides nothing
+					x.Stopped = true
+					x.Inconclusive = append(x.Inconclusive, fmt.Sprintf("exploration stopped after %d paths ended at an unmodelled construct (%d paths explored)", x.unmodelledEnds, len(x.Paths)))
+				}
 				if len(x.Paths) >= x.MaxPaths {
 					x.Stopped = true
 					x.Inconclusive = append(x.Inconclusive, fmt.Sprintf("path cap %d reached", x.MaxPaths))
@@ -222,6 +228,9 @@ func (x *Explorer) runPath(solver *smt.Solver, prefix []int) {
 	x.TotalSteps += in.Steps
 	for f, n := range in.FnSteps {
 		x.FnSteps[f.String()] += n
+	}
+	if res.End == "unmodelled" {
+		x.unmodelledEnds++
 	}
 	switch res.End {
 	case "unmodelled", "unwind", "stepcap", "internal":
